@@ -97,6 +97,20 @@ impl InputGenerator {
     }
 }
 
+#[cfg(feature = "verif-hooks")]
+impl InputGenerator {
+    pub(crate) fn verif_parts(&self) -> crate::verif::VerifDecoder {
+        let (utf8_buffer, utf8_expected, utf8_partial) = self.utf8.verif_parts();
+        crate::verif::VerifDecoder {
+            csi_started: self.flags.contains(Flags::CSI_STARTED),
+            last_byte: self.last_byte,
+            utf8_buffer,
+            utf8_expected,
+            utf8_partial,
+        }
+    }
+}
+
 #[cfg(test)]
 mod tests {
     use rstest::rstest;
